@@ -265,7 +265,7 @@ func genVec(t *rapid.T, label string, scale int) [3]float32 {
 		case 1:
 			v[i] = float32(uni(t, label, 2*scale+1) - scale)
 		case 2:
-			v[i] = math.Float32frombits(uint32(uni(t, label+"_hi", 1<<15))<<16|uint32(uni(t, label+"_lo", 1<<16))) // arbitrary bits
+			v[i] = math.Float32frombits(uint32(uni(t, label+"_hi", 1<<15))<<16 | uint32(uni(t, label+"_lo", 1<<16))) // arbitrary bits
 			if v[i] != v[i] || math.IsInf(float64(v[i]), 0) || math.Abs(float64(v[i])) > 1e15 {
 				v[i] = 0.5
 			}
